@@ -190,6 +190,30 @@ func c05Gen(t *rapid.T) c05Case {
 	if len(c.X) > 6000 {
 		c.X = c.X[:6000]
 	}
+	// tens to hundreds of KB, limits around powers of two
+	if rapid.IntRange(0, 39).Draw(t, "huge") == 0 {
+		n := rapid.SampledFrom([]int{16384, 20000, 32768, 65536, 65537, 100000, 131072, 262144}).Draw(t, "hugesize")
+		if len(c.X) == 0 {
+			c.X = append(c.X, "filler "...)
+		}
+		for len(c.X) < n {
+			c.X = append(c.X, c.X...)
+		}
+		c.X = c.X[:n]
+		c.Limit = rapid.SampledFrom([]uint32{0, 16384, 32768, 65535, 65536, 65537, 131072, 1 << 20, uint32(n - 1), uint32(n), uint32(n + 1)}).Draw(t, "hugelim")
+		c.Chunks = rapid.SliceOfN(rapid.SampledFrom([]int{1 << 20, 4096, 32768, 65536, 1000}), 0, 3).Draw(t, "hugechunks")
+		c.EOFWithData = rapid.Bool().Draw(t, "eofdata")
+		c.FaultAt = -1
+		if rapid.IntRange(0, 2).Draw(t, "hugefault") == 0 {
+			hi := n
+			if c.Limit > 0 && int(c.Limit) < hi {
+				hi = int(c.Limit)
+			}
+			c.FaultAt = rapid.IntRange(0, hi).Draw(t, "faultat")
+			c.FaultData = rapid.Bool().Draw(t, "faultdata")
+		}
+		return c
+	}
 	// sizes and limits around buffer-growth boundaries (3072 * 2^k, 4096, 8192 ...)
 	if rapid.IntRange(0, 5).Draw(t, "sized") == 0 {
 		n := rapid.SampledFrom([]int{512, 1024, 3071, 3072, 3073, 3074, 4095, 4096, 4097, 6143, 6144, 6145, 6146, 8192, 12288, 12290}).Draw(t, "size")
